@@ -23,9 +23,11 @@ def one(nm):
     lines = []
     try:
         shutil.copytree("/repo/gcmpy", os.path.join(tmp, "gcmpy"), ignore=shutil.ignore_patterns("__pycache__"))
-        r = subprocess.run(["git", "apply", "--unsafe-paths", "--directory", tmp, os.path.join(d, "patch.diff")], capture_output=True, text=True, cwd=tmp)
+        r = subprocess.run(["git", "apply", "--include=*/gcmpy/*", "--unsafe-paths", "--directory", tmp, os.path.join(d, "patch.diff")], capture_output=True, text=True, cwd=tmp)
         if r.returncode != 0:
             return nm, False, [f"{nm:24s} patch does not apply to the current tree (skipped)"]
+        if subprocess.run(["diff", "-rq", "/repo/gcmpy", os.path.join(tmp, "gcmpy")], capture_output=True).returncode == 0:
+            return nm, True, [f"{nm:24s} FALSE-ALARM  the patch changed nothing under gcmpy/ (tooling error)"]
         alarms, und = [], []
         for p in check_mod.ALL:
             buf = io.StringIO()
